@@ -5,8 +5,8 @@ spec/EventsAbs.tla   the statement (E1..E8, top of the file) as a monitor: Apply
 spec/Events.tla      implementation-shaped model of events.go + the lifecycle fields it reads (one action per critical
                      section); TLC checks over all interleavings that the monitor never rejects an observation of the
                      model (invariant NoReject) and two direct invariants; the same module generates the driver scripts
-                     (TLC -simulate); its fault variant (Buggy = TRUE: the wait as written in the pinned code) must be
-                     rejected by TLC - the counterexamples become directed scripts
+                     (TLC -simulate); its fault variants (Buggy: the hook wait as written in the pinned code, TreeBuggy:
+                     buildEnabledTree as pinned) must be rejected by TLC - the counterexamples become directed scripts
 spec/EventsTrace.tla TLC validates what harness/cmd/events recorded from the real code against the monitor
 """
 import json
@@ -297,7 +297,7 @@ def run(ctx):
         "evaluations": len(scripts), "distinct_nontrivial": nontriv,
         "rule": "driver scripts = behaviours of spec/Events.tla projected to the driver steps (TLC -simulate, 8 configurations: "
                 "2-3 modules, dependencies, module management, several events, unknown names, InjectEvent) plus directed scripts: "
-                "counterexamples of the fault variant (Buggy = TRUE) found by TLC exhaustively and in simulation; non-trivial = "
+                "counterexamples of the two fault variants (Buggy, TreeBuggy) found by TLC exhaustively and in simulation; non-trivial = "
                 "registers a hook and triggers/injects an event; distinct by content hash",
         "directed_scripts": directed, "exercised": dict(STATS), "observations_validated": nev, "scripts_retried_with_patience": retried,
         "histories_unexamined_after_rejections": unex,
